@@ -145,7 +145,7 @@ impl<X> Scene for ProgScene<X> {
                 let b = o.to_addr();
                 (Some(o), b)
             }
-            Attach::Stream { via, prefill, close } => match spawn_probe_on_stream(0, *via, prefill, *close) {
+            Attach::Stream { via, prefill, close } => match spawn_probe_on_stream(0, *via, prefill, *close, self.spawn.timeout) {
                 OwningOrAddr::Own(o) => {
                     let b = o.to_addr();
                     (Some(o), b)
